@@ -151,6 +151,9 @@ def attribute(diag_sets: list, rows: list, line: int) -> tuple[set, list]:
                     props.add("C09")
             if not row.get("dn"):
                 props |= {"C09", "C11"}
+    if row.get("c") == "UserStart" and ("dn" in best or "cs" in best):
+        # "a connection object can be used for one connect attempt only": a second start_connection must be refused at once
+        props.add("C05")
     if row.get("c") == "EnvJunk":
         # the first fatal cause (requires-encryption / protocol error) must take effect at the offending byte:
         # what the waiting operation reports later depends on it
